@@ -52,7 +52,18 @@ impl EditActor {
                     } else { self.parse_sol_nested( meta_value, false, false); }
                 } 
             } else { 
-                self.parse_sol_nested( meta, false, false);
+
+                for meta in meta_list.iter() {
+
+                    if meta.path().is_ident(crate::FILE){
+
+                        for m in Self::get_file_list(meta).iter() { 
+                            Self::abort_if_is_file(m);
+                            self.parse_sol_nested( m, false, true);
+                        }
+
+                    } else { self.parse_sol_nested( meta, false, false); }
+                }
             }
         } else {
             self.set_live_all();
